@@ -167,6 +167,7 @@ func unitsAll(prop string, mon Monitor) func(tier string) []runner.Unit {
 		for bi, base := range schedBases {
 			base := base
 			base.Prop, base.UDP, base.Seed = prop, true, int64(400+bi)
+			base.Stalls = true
 			us = append(us, runner.Unit{Name: fmt.Sprintf("schedules-%d", bi), Split: true, Run: func(u *runner.U) {
 				RunOne(u, base, pats, explore.Bound{Ds: 1}, mon)
 			}})
